@@ -6,12 +6,12 @@ import os
 ROOT = os.path.dirname(os.path.dirname(os.path.abspath(__file__)))
 TECH = "contract-based deductive verification: sidecar contracts on the real functions, VCs generated from /repo's AST by pyvc, discharged by z3 (cvc5 for unknowns)"
 CLAIMED = {
-    "C01": ("proof", "should_run is proved equal to the make-style oracle Stale (strict >, every declared output present, at least one declared file, spec change) for every target, file state and spec-hash state; schedule/get_status_map lift it to the status table (Spec). Path flattening is an assumed contract (level_note).",
-            "trusted: Target.flattened_inputs/outputs contract (elems == Ins/Outs, i.e. grouping-independence of _flatten is assumed, not yet proved), Fs interface (consistent snapshot), finite real mtimes, sha1 as a function of the text, z3, pyvc's encoding of the Python subset", "4 C01"),
+    "C01": ("proof", "should_run is proved equal to the make-style oracle Stale (strict >, every declared output present, at least one declared file, spec change) for every target, file state and spec-hash state; schedule/get_status_map lift it to the status table (Spec). Path flattening (_flatten, _norm_paths, flattened_inputs/outputs) is proved leaf-wise against the nested inputs/outputs value: the declared file sets are exactly the Canon-images of the leaves, whatever the grouping.",
+            "trusted: the two `tree` axioms (a file set is empty iff the value has no leaf; follows from the leaf-wise definition by induction, not mechanised), termination of _flatten's structural recursion, Fs interface (consistent snapshot), finite real mtimes, sha1 as a function of the text, z3, pyvc's encoding of the Python subset", "4 C01"),
     "C02": ("proof", "schedule/_schedule/_cached_schedule are proved, for every DAG, backend answer and file state, to return Spec on exactly the dependency cone (least closed set, by the arbitrary-superset argument) and to call the submit callback exactly for the targets that need it, once, after their prerequisites, naming exactly the incomplete direct dependencies (ghost submission log). The three real callbacks and backend.status are proved to refine the callback interfaces; filter_names/endpoints select the requested targets.",
             "trusted: definitional axiom of Spec over the acyclic rank (Lean meta-lemma), fnmatch as an uninterpreted relation, scheduler hands out ids not currently tracked, z3, pyvc encoding", "4 C02"),
     "C03": ("proof", "Graph.from_targets is proved to build exactly the path-induced relation, its inverse (no empty entries), the producer map and the unresolved set; endpoints() and _norm_path == Canon are proved. `gwf info` printing is not under contract.",
-            "trusted: Target.flattened_* contracts, os.path algebra (isabs/join/abspath/normpath), attrs-generated Graph constructor, z3, pyvc encoding", "4 C03"),
+            "trusted: os.path algebra (isabs/join/abspath/normpath), attrs-generated Graph constructor, z3, pyvc encoding", "4 C03"),
     "C04": ("proof", "from_targets returns normally only for single-producer, resolved, acyclic workflows (three-colour DFS with ghost finishing times exported as rank) and each of the three errors is proved to name a defect that is really present; run/clean/touch/cancel are proved to have no effect (no submission, removal, touch, cancellation, state-file write) when graph building fails. Termination and recursion depth are not mechanised.",
             "trusted: as C03; termination of the DFS argued on paper; deep recursion (RecursionError on ~1000-deep chains) is NOT decided by these contracts", "4 C04"),
     "C05": ("proof", "one schedule() serves status, dry run and run: the three real callbacks refine one interface, so the table and the submission log are the same function of the initial state; with a non-submitting callback (status, dry run) the scheduler ghost, the tracked ids and every spec-hash answer are proved unchanged, `gwf run --dry-run` removes no log; filter composition is proved pointwise. Output formatting (print_table/print_summary) and the status command body are not under contract yet.",
@@ -35,7 +35,7 @@ CLAIMED = {
     "C14": ("proof", "enqueue_task returns an id new to the pool and adds exactly one SUBMITTED entry; get_task_states returns the table; handle_connection, for an arbitrary JSON request, touches the pool only through enqueue_task/cancel_task and closes the server only on an explicit shutdown request; an unknown id raises without changing anything.",
             "trusted: asyncio isolates a failing connection handler from the server and the other handlers; socket-level faults; itertools.count never repeats; JSON values of the wrong type are abstracted (uninterpreted conversions); z3; pyvc encoding", "4 C14"),
     "C15": ("proof", "the clean command is proved to call os.remove only on unprotected declared outputs of the selected (non-endpoint unless --all) targets, to change nothing when the prompt is declined or graph building fails; spec-hash invalidation per target is in FileSpecHashes.invalidate's contract.",
-            "trusted: Target.flattened_outputs/protected contracts (same Canon), os.remove (may fail: file then stays), click.confirm, filters' dispatch lemmas, z3, pyvc encoding", "4 C15"),
+            "trusted: os.remove (may fail: file then stays), click.confirm, filters' dispatch lemmas, z3, pyvc encoding", "4 C15"),
     "C16": ("proof", "touch_workflow/_visit (with lru_cache semantics) are proved to touch exactly the declared outputs of the selected cone, every dependency's outputs for the last time before the first touch of any output of a dependent, and to record the spec hash of every visited target; the consequence `status reports completed` is a lemma not yet generated.",
             "trusted: Path.touch(exist_ok=True) creates or only updates times, monotone clock, z3, pyvc encoding", "4 C16"),
     "C17": ("proof", "cancel_many/cancel/TrackingBackend.cancel are proved: only the latest tracked job of a selected target is cancelled, every selected target is attempted whatever happened to the others (TargetError/BackendError do not stop the loop), a declined prompt cancels nothing. Per-backend cancel commands are not under contract yet.",
